@@ -102,8 +102,8 @@ func okAllocErr(err error) bool {
 
 func body(w *run.Worker) {
 	ctx := context.Background()
-	w.Cases("seq", w.N(360, 12000), func(c *run.Case) { seqCase(ctx, w, c) })
-	w.Cases("conc", w.N(240, 6000), func(c *run.Case) { concCase(ctx, w, c) })
+	w.Cases("seq", w.N(900, 12000), func(c *run.Case) { seqCase(ctx, w, c) })
+	w.Cases("conc", w.N(600, 6000), func(c *run.Case) { concCase(ctx, w, c) })
 	adjacent(ctx, w)
 }
 
